@@ -25,7 +25,8 @@ use std::sync::Mutex;
 
 const BUCKET: &str = "b";
 
-/// FakeObjectIO + a record of the prefix argument of the last `list_objects` call
+/// FakeObjectIO + a record of the prefix argument of the last `list_objects` call; listings
+/// are returned in descending key order
 struct Spy {
     inner: FakeObjectIO,
     seen: Mutex<Option<Option<String>>>,
@@ -47,7 +48,11 @@ impl ObjectIO for Spy {
     }
     fn list_objects(&self, b: &str, prefix: Option<&str>) -> CloudResult<Vec<ObjectMetadata>> {
         *self.seen.lock().unwrap() = Some(prefix.map(String::from));
-        self.inner.list_objects(b, prefix)
+        // the ObjectIO contract promises no order: hand the listing over in DESCENDING key
+        // order, so that the final `sort()` of expand_cloud_glob is what orders the result
+        let mut l = self.inner.list_objects(b, prefix)?;
+        l.reverse();
+        Ok(l)
     }
     fn object_exists(&self, b: &str, k: &str) -> CloudResult<bool> {
         self.inner.object_exists(b, k)
@@ -148,7 +153,7 @@ fn run(kind: &str, input: &Value) -> Value {
             let pattern = str_of(&input[0]);
             let alpha: Vec<char> = str_of(&input[1]).chars().collect();
             let maxlen = input[2].as_u64().unwrap() as usize;
-            let st = FakeObjectIO::new();
+            let st = Spy::new();
             for k in all_seqs(&alpha, maxlen) {
                 st.put_object(BUCKET, &k, b"x").unwrap();
             }
@@ -177,7 +182,7 @@ fn run(kind: &str, input: &Value) -> Value {
             json!(["ok", n, signature_id(&stored), back, plain])
         }
         "readglob" => {
-            let st = FakeObjectIO::new();
+            let st = Spy::new();
             for o in input[0].as_array().unwrap() {
                 let key = str_of(&o[0]);
                 let recs: Vec<Value> = o[1].as_array().unwrap().clone();
@@ -270,6 +275,34 @@ fn gen_keys(rng: &mut SplitMix64) -> Vec<String> {
         };
         if !keys.contains(&k) {
             keys.push(k);
+        }
+    }
+    // near misses: a key with one regex meta character replaced by a letter or removed (what an
+    // unescaped meta character in the translated pattern would wrongly accept)
+    if !keys.is_empty() && rng.chance(1, 2) {
+        let base: Vec<char> = rng.pick(&keys).chars().collect();
+        let metas: Vec<usize> =
+            (0..base.len()).filter(|&i| ".+()|[]{}^$\\".contains(base[i])).collect();
+        if !metas.is_empty() {
+            let i = *rng.pick(&metas);
+            let mut v = base.clone();
+            match rng.below(3) {
+                0 => v[i] = 'x',
+                1 => {
+                    v.remove(i);
+                }
+                _ => {
+                    if i > 0 {
+                        v[i] = v[i - 1];
+                    } else {
+                        v[i] = 'x';
+                    }
+                }
+            }
+            let k: String = v.into_iter().collect();
+            if !keys.contains(&k) {
+                keys.push(k);
+            }
         }
     }
     keys
@@ -409,6 +442,19 @@ fn generate(seed: u64, tier: Tier, em: &mut Emitter) {
         "\\", "a\\+b", "-", "#", "data/x.csv", "**x**", "*a*", "d?t?/x.csv", "data?x.csv",
     ] {
         emit(em, "expand", json!([true, keys, p]), &["doc"]);
+    }
+    // a meta character AFTER the first wildcard (the listing prefix does not mask a wrong
+    // translation there), each with its near-miss keys
+    let mkeys = json!([
+        "a.b", "axb", "a+b", "aab", "ab", "a|b", "a", "b", "f(1)", "f1", "[z]", "z", "{q}", "q", "^s",
+        "s", "e$", "e", "b\\c", "bc", "a-b", "a#b", "a b", "a/b", "a.b/c", "ab/c"
+    ]);
+    for p in [
+        "*.b", "?.b", "**.b", "*+b", "?+b", "a*+b", "*|b", "?|b", "*(1)", "?(1)", "*1)", "*[z]", "?z]",
+        "*{q}", "?q}", "*^s", "?s", "*$", "?$", "e*$", "*\\c", "?\\c", "*-b", "?#b", "* b", "?.b/c",
+        "*.b/*", "*.?", "?.?", "*b", "?b", "a?b", "a*b", "a**b", "*.*", "*.*/*",
+    ] {
+        emit(em, "expand", json!([true, mkeys, p]), &["doc", "meta-after-wildcard"]);
     }
     emit(em, "expand", json!([false, [], "*"]), &["doc", "no-bucket"]);
     emit(em, "expand", json!([true, [], "*"]), &["doc", "empty-bucket"]);
